@@ -1,18 +1,23 @@
 """C15 — generated reactions are balanced and mapped; Diels-Alder samples have DA centres.
 
-quick   : generated reaction proxies (every sample of bounded random configurations), 300 random
-          samples per mode of the shipped Diels-Alder proxy (drawn with a restricting sampler along
-          random choice paths), the generated tables / counts, RDKit sanitisation of both sides;
+quick   : generated reaction proxies (every sample of bounded random configurations, with forming
+          <0,k> AND breaking <k,0> bonds), 300 random samples per mode of the shipped Diels-Alder
+          proxy (drawn with a restricting sampler along random choice paths), the generated tables,
+          sample counts from REAL iteration of the shipped proxy restricted to one core graph at a
+          time (the three smallest (mode, core) parts: da_pos completely, the intramolecular core of
+          da_neg) against the Lean count formula per core, RDKit sanitisation of both sides;
 thorough: the complete enumeration of DielsAlderProxy(neg_sample=False/True): implementation and
           compiled model compared sample by sample (fingerprints of canonical X, G, H), the
-          executable property (balanced, mapped, superposition, daCentreOk) on every implementation
+          executable property (balanced, mapped, halves (halvesB), superposition, daCentreOk) on every implementation
           sample, RDKit sanitisation of every side.  The DA-centre clause is a **test** (exhaustive
           enumeration of a finite configuration), not a theorem."""
+import re
+
 from common import Atom, Case, Run, call_impl, prepare, enc_graph, sx, ImplError
 from c13 import check_model_spec, finalize_model_spec
 from c14 import (canon_graph, fingerprint, enc_config, effective_groups, gen_config, num_exp, shipped, table_cases)
 
-PROOFS = ["FGVerif.Proofs.C15", "FGVerif.Proofs.C15General"]
+PROOFS = ["FGVerif.Proofs.C15", "FGVerif.Proofs.C15General", "FGVerif.Proofs.C15Halves"]
 
 
 class PathSampler:
@@ -44,18 +49,172 @@ def da_path_sample(groups, core_pgs, core_idx, rng):
     return s1.choices, x, g, h
 
 
+_ITS_LABEL = re.compile(r"<\d,\d>")
+_PLAIN_BOND = re.compile(r"(?<=[A-Za-z\]\})])[-=#](?=[A-Za-z\[{])")
+
+
+def with_breaking_bonds(pattern, rng):
+    """rewrite some ITS labels of a generated pattern into breaking bonds <k,0> / forming bonds <0,k>, and
+    some plain bonds between two atoms into <k,0> (c13.rand_pattern only draws <0..2,1..2>: no bond ever
+    breaks); a rewrite the parser refuses is dropped"""
+    from fgutils.parse import Parser
+
+    def sub(m):
+        x = rng.random()
+        if x < 0.35:
+            return "<%d,0>" % rng.randint(1, 3)
+        if x < 0.50:
+            return "<0,%d>" % rng.randint(1, 3)
+        return m.group(0)
+
+    def sub_plain(m):
+        if rng.random() < 0.25:
+            return "<%d,0>" % {"-": 1, "=": 2, "#": 3}[m.group(0)]
+        return m.group(0)
+
+    new = _PLAIN_BOND.sub(sub_plain, _ITS_LABEL.sub(sub, pattern))
+    if new == pattern:
+        return pattern
+    try:
+        for multi in (True, False):
+            Parser(use_multigraph=multi).parse(new)
+    except Exception:
+        return pattern
+    return new
+
+
+def _iterate_core(args):
+    """worker process: REAL iteration of the shipped DielsAlderProxy restricted to ONE of its core graphs — a
+    ReactionProxy built from that single core ProxyGraph (unique sampler, as the shipped core group) and the
+    proxy's own effective groups; returns the number of samples the iterator yields before it stops.  With
+    `history` the proxy of the other mode is constructed first (counts must not depend on construction order)."""
+    import time
+    which, ci, history = args
+    t0 = time.time()
+    try:
+        from fgutils.proxy import ReactionProxy, ProxyGroup
+        from fgutils.proxy_collection.diels_alder_proxy import DielsAlderProxy
+        if history:
+            DielsAlderProxy(neg_sample=(which != "da_neg"))
+        p = DielsAlderProxy(neg_sample=(which == "da_neg"))
+        rp = ReactionProxy(ProxyGroup("__DA_core__", [p.core.graphs[ci]], unique=True), effective_groups(p), enable_aam=True)
+        n = 0
+        for g, h in rp:
+            n += 1
+            if g.number_of_nodes() != h.number_of_nodes() or n > 500000:
+                return which, ci, None, "sample %d: sides with different numbers of atoms (or the iterator does not stop)" % n, time.time() - t0
+        return which, ci, n, None, time.time() - t0
+    except Exception as e:  # noqa: the implementation raised while iterating
+        return which, ci, None, "%s: %s" % (type(e).__name__, str(e)[:200]), time.time() - t0
+
+
+def start_real_iteration(tier):
+    """quick: the three smallest (mode, core) parts of the two shipped configurations by formula size (that is
+    da_pos completely and the intramolecular core of da_neg: 4590 + 5880 + 1360 samples); thorough: all four.
+    Runs in worker processes while the main process does the rest of the check."""
+    import multiprocessing as mp
+    parts = []
+    for which in ("da_pos", "da_neg"):
+        groups, cores = shipped(which)
+        for ci, c in enumerate(cores):
+            parts.append((num_exp(groups, c), which, ci))
+    parts.sort()
+    plan = parts if tier == "thorough" else parts[:3]
+    pool = mp.get_context("fork").Pool(len(plan))
+    jobs = [(which, ci, pool.apply_async(_iterate_core, ((which, ci, ci == 0),))) for _, which, ci in plan]
+    return pool, jobs, parts
+
+
+def collect_real_iteration(r, pool, jobs, parts, contract, machinery):
+    """cases `core_counts`: the REALLY iterated per-core counts against the Lean count formula per core
+    (C14.numExp; C14.total proves it equal to the number of samples) and, where every core of a mode was
+    iterated, against the documented total"""
+    from fgutils.parse import Parser
+    real = {}
+    for which, ci, job in jobs:
+        try:
+            w, c, n, err, wall = job.get(timeout=900)
+        except Exception as e:  # noqa: worker died / timed out: the machinery failed, not the property
+            machinery.append("real iteration of %s core %d did not finish: %s" % (which, ci, type(e).__name__))
+            continue
+        real[(which, ci)] = (n, err, wall)
+    pool.terminate()
+    cases = []
+    report = {}
+    for which in ("da_pos", "da_neg"):
+        groups, cores = shipped(which)
+        mask = [(which, ci) in real for ci in range(len(cores))]
+        report[which] = {"core %d" % ci: {
+            "pattern": cores[ci],
+            "count_from_REAL_iteration_of_the_restricted_proxy": real[(which, ci)][0] if mask[ci] else None,
+            "iteration_wall_s": round(real[(which, ci)][2], 1) if mask[ci] else None,
+            "harness_formula_count(not_an_oracle)": num_exp(groups, cores[ci])} for ci in range(len(cores))}
+        report[which]["all_cores_really_iterated"] = all(mask)
+        if not any(mask):
+            continue
+        errs = [real[(which, ci)][1] for ci in range(len(cores)) if mask[ci] and real[(which, ci)][1]]
+        if errs:
+            impl = ImplError(RuntimeError(errs[0]))
+        else:
+            impl = [real[(which, ci)][0] if mask[ci] else None for ci in range(len(cores))]
+        cfg = enc_config(groups, True, contract)
+        core_gs = [enc_graph(Parser(use_multigraph=True).parse(c)) for c in cores]
+        cases.append(Case([Atom("C15"), Atom("core_counts"), Atom(which), cfg, core_gs, mask], impl,
+                          meta={"core_counts": which, "iterated": mask, "cores": cores,
+                                "real_counts": None if errs else impl, "impl_error": errs[0] if errs else None},
+                          tags=("core_counts:" + which, "all_cores_iterated" if all(mask) else "some_cores_iterated"),
+                          nontrivial_key=("core_counts", which)))
+    outs = r.evaluate(cases)
+    for o in outs:
+        if o.ok_reply and len(o.extra) >= 2:
+            which = o.case.meta["core_counts"]
+            report[which]["lean_formula_total(C14.numExp summed; C15.da_counts)"] = o.extra[0]
+            for ci, v in enumerate(o.extra[1]):
+                report[which]["core %d" % ci]["lean_formula_count(C14.numExp)"] = v
+    r.notes["sample_counts"] = report
+    return outs
+
+
 def count_hyp(r, outs):
-    """model-spec check + how often the decidable hypotheses of the C15 theorems hold on real samples"""
+    """model-spec check + how often the decidable hypotheses of the C15 theorems hold on real samples, for the
+    generated samples (op `reaction`, one sample per case) and the Diels-Alder samples (op `paths`, counts per
+    chunk): `hypB` = hypotheses of C15.superposition / halvesB_reaction / balanced_mapped_of (wf, simple,
+    goodLabel on every bond, closed, distinct ids, aam = id+1), `generalOk` = hypotheses of
+    C15.superposition_general"""
     check_model_spec(r, outs)
     for o in outs:
         if o.ok_reply and o.case.tags[:1] == ("reaction",) and len(o.extra) >= 1:
+            r.count("generated:samples")
             r.count("theorem_hypotheses_hold" if o.extra[0] == "1" else "theorem_hypotheses_false(e.g. (0,0) bond)")
+            r.count("generated:hypB(superposition,halvesB_reaction)_holds" if o.extra[0] == "1" else "generated:hypB_false")
             if len(o.extra) >= 3:
                 # C15.superposition_general: hypotheses `generalOk`, and the general get_its(*split_its(x)) of the C09/C10
                 # models (through the adapter of Model/C15General.lean) evaluated on the sample
                 r.count("general_superposition_hypotheses_hold" if o.extra[1] == "1" else "general_superposition_hypotheses_false")
+                r.count("generated:generalOk(superposition_general)_holds" if o.extra[1] == "1" else "generated:generalOk_false")
                 if o.extra[1] == "1" and o.extra[2] != "1":
                     r.notes["general_resuper_failures"] = r.notes.get("general_resuper_failures", 0) + 1
+            if len(o.extra) >= 5:
+                if o.extra[3] == "1":
+                    r.count("generated:samples_with_forming_bond(0,k)")
+                if o.extra[4] == "1":
+                    r.count("generated:samples_with_breaking_bond(k,0)")
+        if o.ok_reply and o.case.tags[:1] and o.case.tags[0].startswith("da_paths:") and len(o.extra) >= 5:
+            which = o.case.tags[0].split(":", 1)[1]
+            n = len(o.case.meta.get("paths", []))
+            try:
+                n_hyp, n_gen, n_resuper, n_form, n_break = (int(v) for v in o.extra[:5])
+            except (TypeError, ValueError):
+                continue
+            r.count("%s:samples" % which, n)
+            r.count("%s:hypB(superposition,halvesB_reaction)_holds" % which, n_hyp)
+            r.count("%s:generalOk(superposition_general)_holds" % which, n_gen)
+            r.count("%s:samples_with_forming_bond(0,k)" % which, n_form)
+            r.count("%s:samples_with_breaking_bond(k,0)" % which, n_break)
+            if n_hyp != n or n_gen != n:
+                r.count("%s:theorem_hypotheses_FALSE" % which, 2 * n - n_hyp - n_gen)
+            if n_resuper != n_gen:
+                r.notes["general_resuper_failures"] = r.notes.get("general_resuper_failures", 0) + (n_gen - n_resuper)
 
 
 def sanitize_fail(g):
@@ -91,10 +250,13 @@ def run(tier, seed):
         return 2
     rng = r.rng
     contract = {}
+    machinery = []
+    pool, jobs, parts = start_real_iteration(tier)
     cases = [c for c in table_cases(r, contract) if c.meta["table"] != "common"]
     # ---- the documented counts must not depend on which proxies were constructed earlier in the
-    # process (history): construct the shipped proxy in both orders and evaluate the count formula
-    # (proved equal to the number of samples: C14.total; enumerated completely in the thorough tier)
+    # process (history): construct the shipped proxy in both orders and evaluate the HARNESS's count formula on
+    # the effective groups (formula only — no iteration; the counts that come from REAL iteration of the
+    # proxy are those of `collect_real_iteration` below, reported under notes.sample_counts)
     DOC = {"da_pos": 10470, "da_neg": 12875}
     for order in (("da_neg", "da_pos"), ("da_pos", "da_neg"), ("da_pos", "da_pos")):
         for which in order:
@@ -116,8 +278,10 @@ def run(tier, seed):
         ({"g": ["CCc3ccccc3"]}, ["C<1,0>C{g}"]),                       # scalar 1 and 1.5 labels from a non-ITS pattern
         ({"g": ["CC", "N"]}, ["C" * 42 + "<1,2>{g}"]),                  # samples with >= 40 atoms (m26)
         ({"g": ["O"]}, ["C1<1,2>{g}<2,1>1"]),
+        ({"g": ["C<2,0>O", "N"]}, ["C<1,0>C<0,1>{g}<2,1>C"]),            # breaking bonds (k,0) in core and group pattern
+        ({"d": ["C<1,0>C"], "p": ["C<0,2>O<3,0>C"]}, ["{d}<2,0>{p}"]),
     ]
-    n_cfg = 60 if tier == "quick" else 1200
+    n_cfg = 90 if tier == "quick" else 1200
     n_react = 0
     for k in range(n_cfg + len(corpus)):
         if len(cases) >= 300:
@@ -132,6 +296,11 @@ def run(tier, seed):
                 groups, core, flags = gen_config(rng, allow_errors=False)
                 if 0 < num_exp(groups, core) <= 60:
                     break
+            if rng.random() < 0.7:
+                # breaking bonds <k,0> (and more forming bonds <0,k>) in group patterns and core
+                groups = {n: ProxyGroup(n, [ProxyGraph(with_breaking_bonds(pg.pattern, rng), anchor=list(pg.anchor))
+                                            for pg in g_.graphs]) for n, g_ in groups.items()}
+                core = with_breaking_bonds(core, rng)
             cores = [core]
             multi = rng.random() < 0.8
         try:
@@ -143,9 +312,19 @@ def run(tier, seed):
             continue
         res = call_impl(impl_reactions, cores, groups, multi)
         meta = {"groups": {n: [[pg.pattern, list(pg.anchor)] for pg in g.graphs] for n, g in groups.items()}, "cores": cores, "multi": multi}
+        # the whole configuration against the MODEL's expansion: the patterns the proxy expands are the model's (ids 0..n-1,
+        # nothing lost or merged on the way), and every (X, G, H) passes the sample check
+        try:
+            cfg_w = enc_config(groups, multi, contract)
+            cores_w = [enc_graph(Parser(use_multigraph=multi).parse(c)) for c in cores]
+        except Exception:
+            continue
+        impl_all = res if isinstance(res, ImplError) else sorted(([canon_graph(x), canon_graph(g), canon_graph(h)] for x, g, h in res), key=sx)
+        cases.append(Case([Atom("C15"), Atom("reactions"), cfg_w, cores_w], impl_all, meta=dict(meta, whole_configuration=True),
+                          tags=("reactions(whole configuration vs model expansion)", "multi" if multi else "simple",
+                                "impl_raised" if isinstance(res, ImplError) else "impl_ok"),
+                          nontrivial_key=("R", sx(cfg_w), tuple(cores))))
         if isinstance(res, ImplError):
-            cases.append(Case([Atom("C15"), Atom("reaction"), False, enc_graph(Parser(use_multigraph=False).parse("C"))], res,
-                              meta=meta, tags=("reaction", "impl_raised")))
             continue
         for i, (x, g, h) in enumerate(res):
             n_react += 1
@@ -180,6 +359,8 @@ def run(tier, seed):
         r.count("tag:da_samples:" + which, len(batch))
     count_hyp(r, r.evaluate(cases))
     r.notes["generated_reaction_samples"] = n_react
+    # ---- counts from REAL iteration of the shipped proxy, core graph by core graph -----------------
+    check_model_spec(r, collect_real_iteration(r, pool, jobs, parts, contract, machinery))
     # ---- thorough: the complete enumeration, both modes ---------------------------------------
     if tier == "thorough":
         for which in ("da_pos", "da_neg"):
@@ -204,7 +385,10 @@ def run(tier, seed):
     r.extra_cov["notes"] = r.notes
     r.assumptions = [
         "Model/C13.lean, Model/C14.lean (validated by the C13/C14 checks); split_its as modelled in Model/C15.lean "
-        "(validated here on every sample); superposition is checked twice on every sample: with the small get_its of Model/C15.lean "
+        "(validated here on every sample); the two halves of every implementation sample are checked DIRECTLY against the model's "
+        "split of the pattern's labels (Model/C15.lean: halvesB - same nodes/symbols/aam = id+1, exactly the same bonded pairs with "
+        "the same scalar non-zero labels; no tuple label, missing label or extra bond can hide behind the totalised orderOf/getD of "
+        "the get_its models; C15.halvesB_sound, C15.halvesB_reaction); superposition is an additional clause, checked twice on every sample: with the small get_its of Model/C15.lean "
         "(graphs on the same nodes with aam = id+1) and with the general get_its of Model/C09.lean (validated against fgutils.its by "
         "the C09/C10 checks) through the adapter of Model/C15General.lean; C15.superposition_general / getIts_small_eq_general prove "
         "that the two agree on every sample in the decidable domain generalOk",
@@ -213,17 +397,36 @@ def run(tier, seed):
         "the DA-centre shape clause is a test: exhaustive enumeration of the finite shipped configuration by the compiled model and by Python "
         "(thorough tier; 300 random samples per mode in quick), not a kernel-checked theorem",
         "random DA samples are drawn with a restricting sampler (one graph per call); the complete enumeration uses the shipped non-restricting samplers",
+        "SAMPLE COUNTS: coverage.notes.sample_counts states per mode and core graph which counts come from REAL iteration of the "
+        "shipped proxy (a ReactionProxy built from that single core ProxyGraph, unique core sampler, and the proxy's own effective groups, "
+        "iterated until it stops, in a worker process; the other mode's proxy constructed first for core 0 = history) and which only from "
+        "the count formula; quick iterates da_pos completely (4590 + 5880 = 10470) and core 0 of da_neg (1360), the inter-molecular core "
+        "of da_neg (11515) is formula-only in quick and really enumerated in thorough; 'count_after_history' is the HARNESS's formula on "
+        "the effective groups (no iteration)",
+        "the decidable hypotheses of the theorems (hypB: C15.superposition / halvesB_reaction / balanced_mapped_of; generalOk: "
+        "C15.superposition_general) are evaluated by the driver on every generated sample and on every Diels-Alder path sample "
+        "(input_distribution generated:* / da_pos:* / da_neg:*)",
     ]
-    return r.finish(
+    if machinery:
+        r.notes["machinery_errors"] = machinery
+    rc = r.finish(
         level="proof",
-        rule="every sample of bounded random reaction-proxy configurations (see C14's generator; ITS and scalar patterns, simple and multigraph "
+        rule="every sample of bounded random reaction-proxy configurations (each configuration also as a whole against the model's expansion; see C14's generator; ITS and scalar patterns, simple and multigraph "
              "parser, samples with >= 41 atoms); DielsAlderProxy both modes: %d random choice paths per mode (quick) / complete enumeration "
              "(thorough); non-trivial = sample whose expanded pattern carries at least one ITS pair label" % n_paths,
         checker_cmd="cd lean && lake build FGVerif.Proofs.C15 && lake env lean FGVerif/Audit/C15.lean",
-        explanation="theorems C15.balanced_mapped / C15.superposition / C15.superposition_general (for the general C09/C10 models of "
+        explanation="theorems C15.halvesB_sound / C15.halvesB_reaction (direct check of the halves, Proofs/C15Halves.lean), "
+                    "C15.balanced_mapped / C15.superposition / C15.superposition_general (for the general C09/C10 models of "
                     "get_its/split_its, Proofs/C15General.lean) and C15.da_counts (generated table, kernel arithmetic) in "
-                    "lean/FGVerif/Proofs/C15*.lean; executable property (balanced, mapped, superposition, daCentreOk) applied by the compiled "
+                    "lean/FGVerif/Proofs/C15*.lean; executable property (balanced, mapped, halves label by label (halvesB), superposition, daCentreOk) applied by the compiled "
                     "driver to every implementation sample; model tied to the code sample by sample")
+    if machinery:
+        # a harness / worker defect is never a VIOLATION and never a pass
+        for m in machinery:
+            print("ERROR property=C15 machinery failure: %s" % m)
+        if rc == 0:
+            rc = 2
+    return rc
 
 
 def replay(path):
@@ -235,7 +438,15 @@ def replay(path):
     from c14 import groups_from_meta
     d = json.load(open(path))
     meta = d.get("meta") or {}
-    if "paths" in meta:
+    if "core_counts" in meta:
+        which = meta["core_counts"]
+        groups, cores = shipped(which)
+        res = [_iterate_core((which, ci, ci == 0)) if it else None for ci, it in enumerate(meta["iterated"])]
+        errs = [x[3] for x in res if x is not None and x[3]]
+        impl = ImplError(RuntimeError(errs[0])) if errs else [None if x is None else x[2] for x in res]
+        case = Case([Atom("C15"), Atom("core_counts"), Atom(which), enc_config(groups, True),
+                     [enc_graph(Parser(use_multigraph=True).parse(c)) for c in cores], list(meta["iterated"])], impl, meta=meta)
+    elif "paths" in meta:
         which = meta["collection"]
         groups, cores = shipped(which)
         core_pgs = DielsAlderProxy(neg_sample=(which == "da_neg")).core.graphs
@@ -247,6 +458,12 @@ def replay(path):
             impl.append([canon_graph(x), canon_graph(g), canon_graph(h)])
         case = Case([Atom("C15"), Atom("paths"), True, enc_config(groups, True), [enc_graph(Parser(use_multigraph=True).parse(c)) for c in cores],
                      True, meta["paths"]], impl, meta=meta)
+    elif "groups" in meta and meta.get("whole_configuration"):
+        groups = groups_from_meta(meta)
+        res = call_impl(impl_reactions, meta["cores"], groups, meta["multi"])
+        impl_all = res if isinstance(res, ImplError) else sorted(([canon_graph(x), canon_graph(g), canon_graph(h)] for x, g, h in res), key=sx)
+        case = Case([Atom("C15"), Atom("reactions"), enc_config(groups, meta["multi"]),
+                     [enc_graph(Parser(use_multigraph=meta["multi"]).parse(c)) for c in meta["cores"]]], impl_all, meta=meta)
     elif "groups" in meta and "sample" in meta:
         res = call_impl(impl_reactions, meta["cores"], groups_from_meta(meta), meta["multi"])
         if isinstance(res, ImplError):
@@ -257,7 +474,7 @@ def replay(path):
         case = Case([Atom("C15"), Atom("reaction"), False, enc_graph(x)], [canon_graph(g), canon_graph(h)], meta=meta)
     else:
         print("replay file carries no re-runnable sample (kind=%s): %s; re-run ./check C15" % (d.get("kind"), d.get("theorem_or_correspondence") or d.get("spec_clause")))
-        return 1
+        return 2   # nothing to re-run: not a VIOLATION (exit 1 iff a VIOLATION line is printed)
     drv = Driver()
     o = Outcome(case, drv.ask(case.line()))
     drv.close()
